@@ -127,9 +127,11 @@ impl StatementWrapper {
             StatementVer::Naive => serde_json::from_value(value)
                 .map(Self::Naive)
                 .map_err(|e| e.into()),
-            StatementVer::V0_1 => serde_json::from_value(value)
-                .map(Self::V0_1)
-                .map_err(|e| e.into()),
+            StatementVer::V0_1 => {
+                let statement: StateV01 = serde_json::from_value(value)?;
+                statement.check_predicate_type()?;
+                Ok(Self::V0_1(statement))
+            }
         }
     }
 
